@@ -20,7 +20,7 @@ OUTSIDE = ["sequences longer than the bound", "indices outside [-R, R]",
            "find with negative start"]
 REACH = {"value", "error"}
 
-OPS_IDX = ["index", "assign_at", "delete_at"]
+OPS_IDX = ["index", "assign_at", "delete_at", "index_alias"]
 OPS_2 = ["slice2", "substr2", "sublist2", "split_join"]
 OPS_1 = ["slice1", "substr1", "sublist1", "insert_at"]
 OPS_FIND = ["find", "find_last", "find_start", "in"]
@@ -42,6 +42,8 @@ def cells(tier, seed):
                 if kind == "list" and op.startswith("substr"):
                     continue
                 if kind == "str" and op in ("insert_at", "delete_at"):
+                    continue
+                if kind == "list" and op == "index_alias":
                     continue
                 out.append({"op": op, "kind": kind, "n": n, "R": b["index_range"]})
             for op in OPS_FIND:
@@ -108,6 +110,20 @@ def run(ctx, cell):
             exp_err = True
         else:
             exp = mk(kind, [base[int(k)]]) if kind == "str" else vint(base[int(k)])
+    elif op == "index_alias":
+        # the element taken out is a value of its own: changing it changes neither the string nor later reads
+        env["t"] = mk(kind, base)
+        out = run_ckl("def c = s[i]; c[0] = 'Z'; [s, c, s[i], t[i], 'abcdefgh'[i]]", env)
+        k = norm(i, n)
+        if k < 0 or k >= n:
+            exp_err = True
+        else:
+            ch = mk(kind, [base[int(k)]])
+            lit = "abcdefgh"[int(norm(i, 8))] if -8 <= i < 8 else None
+            if lit is None:
+                exp_err = True
+            else:
+                exp = vlist([mk(kind, base), vstr("Z"), ch, ch, vstr(lit)])
     elif op == "assign_at":
         env["v"] = vstr("Z") if kind == "str" else vint(999)
         out = run_ckl("s[i] = v; s", env)
